@@ -81,7 +81,9 @@ func upgradeDumpBody(r *Run) {
 	}
 	// storage-level perturbations in the shapes found in the dumps
 	notaryFlag := Weighted(t, "notaryFlag", []int{50, 20, 15, 15}) // 0 as dumped, 1 absent, 2 false, 3 true
-	ballots := Weighted(t, "ballots", []int{50, 15, 15, 20})       // 0 as dumped, 1 absent, 2 empty list, 3 stale (height far in the past is impossible on a short chain: see below)
+	ballots := Weighted(t, "ballots", []int{42, 12, 12, 16, 18})   // 0 as dumped, 1 absent, 2 empty list, 3 stale (height far in the past is impossible on a short chain: see below), 4 one ballot whose last vote lies 19..22 blocks before the update
+	const ballotAt = 8 // height recorded in the class-4 ballot
+	ballotAge := 19 + Pick(t, "ballotAge", 4)
 	extraAcc := rapid.IntRange(0, 3).Draw(t, "extraAccounts")
 	var extraFirst [3]byte
 	for i := range extraFirst {
@@ -125,6 +127,16 @@ func upgradeDumpBody(r *Run) {
 		}
 		if ballots == 2 || ballots == 3 {
 			raw, _ := stackitem.Serialize(stackitem.NewArray(nil))
+			out = append(out, KV{K: []byte("ballots"), V: raw})
+		}
+		if ballots == 4 {
+			b := stackitem.NewStruct([]stackitem.Item{
+				stackitem.NewByteArray([]byte("verif-decision")),
+				stackitem.NewArray([]stackitem.Item{stackitem.NewByteArray(DetKey("dump/voter").PublicKey().Bytes())}),
+				stackitem.Make(int64(ballotAt)),
+			})
+			raw, err := stackitem.Serialize(stackitem.NewArray([]stackitem.Item{b}))
+			must(err)
 			out = append(out, KV{K: []byte("ballots"), V: raw})
 		}
 		if name == "netmap" && longHistory {
@@ -310,7 +322,22 @@ func upgradeDumpBody(r *Run) {
 		attempts = 2
 	}
 	dep := oldVersion
+	if ballots == 4 {
+		// the update is to see the ballot's last vote ballotAge blocks back: the
+		// vote window (20 blocks, as C17 has it) is still open at 19 and 20 and
+		// closed from 21 on
+		for int(w.Height()) < ballotAt+ballotAge {
+			w.AddBlock(nil, 1)
+			r.AddBlock(0, 1)
+		}
+		r.Inject("height.gap")
+		r.Fired("height.gap")
+	}
 	for at := 0; at < attempts; at++ {
+		if ballots == 4 {
+			pending = int(w.Height())-ballotAt <= 20
+			r.Count(fmt.Sprintf("probe.update_%d_blocks_after_last_vote", int(w.Height())-ballotAt))
+		}
 		okVersion := prev <= dep && dep < cur
 		mayRefuseVotes := dep < 17_000 && notaryDisabled && pending
 		sysFee, cut := int64(-1), false
